@@ -183,6 +183,22 @@ Example priority_search_example :
   end.
 Proof. vm_compute. auto. Qed.
 
+(* Re-entrancy and interleaving: a callback may itself search the same tree (other query, other
+   script) and let its answers depend on the result.  Searches are functions of (tree, query,
+   script) over an immutable tree, so inner and outer search both meet their specifications. *)
+Theorem nested_searches_spec : forall (pop : heap_pop) (t : rtree) (q q2 : box) (cb2 : callback)
+    (answer : option (list item * result) -> list item * result -> nat -> Z -> action),
+  heap_spec pop -> tree_inv t = true ->
+  let inner_p := priority_search pop q2 cb2 t in
+  let inner_r := range_search q2 cb2 t in
+  let cb := fun k id => answer inner_p inner_r k id in
+  (exists v ret, inner_p = Some (v, ret) /\ prio_ok (tree_leaves t) q2 cb2 v ret = true) /\
+  range_ok (tree_leaves t) q2 cb2 (fst inner_r) (snd inner_r) = true /\
+  (exists v ret, priority_search pop q cb t = Some (v, ret) /\ prio_ok (tree_leaves t) q cb v ret = true) /\
+  range_ok (tree_leaves t) q cb (fst (range_search q cb t)) (snd (range_search q cb t)) = true.
+Proof. exact nested_searches_spec_lemma. Qed.
+Print Assumptions nested_searches_spec.
+
 (* ---------------------------------------------------------------- Count / Extent *)
 Theorem count_extent_spec : forall items,
   exists t, bulk_load items = Ok t /\
